@@ -1,6 +1,6 @@
 (* Proofs/C08_Stable.v — C08, second half: exporting an imported tree and importing it
-   again.  The chain is defined on the models ([reimport]); the full statement is kept as
-   a Prop; what is proved: the export of an imported tree is well-formed and parses back to
+   again.  The chain is defined on the models ([reimport]) and the full statement as a
+   Prop (proved in Proofs/C08_Chain.v); here: the export of an imported tree is well-formed and parses back to
    it up to surrounding white space (C07_general), the white-space policy maps such a text
    back to the imported one (policy_ws_stable, Proofs/C08_Policy.v), a witness of the full
    statement and the refutation for the alias class (known finding). *)
@@ -85,7 +85,7 @@ Definition exportable (ft : ftree) : Prop :=
   xml_names ft /\ prefixes_bound ft /\ xml_values ft /\ dicts_wf ft /\ ns_closed ft
   /\ n_tail (ft_d ft) = None.
 
-(** the full statement (not proved in general; see C08_stable_partial, C08_stable_witness) *)
+(** the full statement; proved in Proofs/C08_Chain.v (C08_stable_proof) *)
 Definition C08_stable_statement : Prop :=
   forall clean collapse literals e t ft,
     infoset_ok e -> uri_prefix_unique e = true ->
